@@ -327,9 +327,20 @@ class Exec(object):
             et = like.elem
             t = z3.Empty(z3.SeqSort(et.sort()))
             for it in items:
-                t = z3.Concat(t, z3.Unit(et.unwrap(it))) if True else t
+                if isinstance(it, VUnion):
+                    it = self.resolve(path, it)
+                t = z3.Concat(t, z3.Unit(et.unwrap(it)))
             return VSeq(z3.simplify(t) if items else t, et)
         raise Unsupported('seq_of %r' % (v,))
+
+    def resolve(self, path, v):
+        """a VUnion with exactly one alternative feasible under the pc -> that alternative"""
+        if not isinstance(v, VUnion):
+            return v
+        live = [(g, a) for g, a in v.alts if self.feasible(path, g) != 'no']
+        if len(live) == 1:
+            return self.resolve(path, live[0][1])
+        return v
 
     # ------------------------------------------------------------------ names
     def lookup(self, path, fr, name):
